@@ -443,4 +443,35 @@ def nodesList : List Expr → Nat
   | e :: es => e.nodes + nodesList es
 end
 
+/-! ### Size semantics of integer arithmetic (resource clause)
+
+`IExpr` is the integer-literal fragment (`+`, `*`, `**` over non-negative literals).  `val` is the mathematical value
+CPython has to materialise; `budget` is the bit budget that pow-free expressions provably stay within. -/
+
+inductive IExpr where
+  | lit (n : Nat)
+  | add (a b : IExpr)
+  | mul (a b : IExpr)
+  | pow (a b : IExpr)
+  deriving Repr
+
+def IExpr.val : IExpr → Nat
+  | .lit n => n
+  | .add a b => a.val + b.val
+  | .mul a b => a.val * b.val
+  | .pow a b => a.val ^ b.val
+
+def IExpr.powFree : IExpr → Bool
+  | .lit _ => true
+  | .add a b => a.powFree && b.powFree
+  | .mul a b => a.powFree && b.powFree
+  | .pow _ _ => false
+
+/-- bits of the literals plus one per addition: linear in the size of the text -/
+def IExpr.budget : IExpr → Nat
+  | .lit n => n.log2 + 1
+  | .add a b => a.budget + b.budget + 1
+  | .mul a b => a.budget + b.budget
+  | .pow a b => a.budget + b.budget
+
 end Operon.Mito
